@@ -934,6 +934,7 @@ func main() {
 	writeStats(t, *out)
 	writeTrigger(t, *out)
 	writeSlot(t, *out)
+	writeMergeMM(t, *out)
 	if err := os.MkdirAll(*out, 0o755); err != nil {
 		fmt.Fprintln(os.Stderr, err)
 		os.Exit(2)
